@@ -69,12 +69,22 @@ def render(name, a, e, lookups=(), tid=0x33, ts0=1000, nested=(), stray_end=Fals
     return str(out[0])
 
 
+# the only decoder that (legitimately) shows the low 32 bits of a START word: the seconds of a mach_timespec
+LOW32_OK = {('MSC_semaphore_timedwait_trap', 1)}
+
+
+def full_renderings(a):
+    a &= (1 << 64) - 1
+    s = a - (1 << 64) if a >> 63 else a
+    return {str(a), hex(a), str(s), hex(s)}
+
+
 def check_literals(name, a, e, params, txt):
     for k, p in enumerate(params):
         p0 = TP.strip_comment(p)
         if not NUM.match(p0):
             continue
-        own = renderings(a[k]) if k < 4 else set()
+        own = (renderings(a[k]) if (name, k) in LOW32_OK else full_renderings(a[k])) if k < 4 else set()
         others = {j: renderings(x) for j, x in enumerate(a + e) if j != k}
         hit = [j for j, r in others.items() if p0 in r]
         if p0 not in own:
